@@ -196,6 +196,100 @@ theorem acyclic_of_not_hasCycle {p : Project} (hkeys : (p.map (·.key)).Nodup) (
   have : hasCycle p = true := (cycle_iff p hres).mpr ⟨d0, ⟨e.key, List.mem_map.mpr ⟨e, he, rfl⟩, hreach⟩, hcyc⟩
   rw [h] at this; cases this
 
+
+/-! ### Independence of the order of the process map, for actual permutations -/
+
+/-- with distinct keys, what a name resolves to is determined by membership alone: the entry with
+    that key, else every entry with that process name -/
+theorem mem_procsOf {p : Project} (hkeys : (p.map (·.key)).Nodup) (n : String) (e : Entry) :
+    e ∈ (procsOf p n).getD [] ↔
+      e ∈ p ∧ (e.key = n ∨ ((∀ x ∈ p, x.key ≠ n) ∧ e.name = n)) := by
+  unfold procsOf
+  cases hf : p.find? (·.key = n) with
+  | some x =>
+    have hx : x ∈ p := List.mem_of_find?_eq_some hf
+    have hk : x.key = n := by simpa using List.find?_some hf
+    simp only [Option.getD_some, List.mem_singleton]
+    constructor
+    · rintro rfl; exact ⟨hx, Or.inl hk⟩
+    · rintro ⟨he, h | ⟨h, _⟩⟩
+      · exact key_inj p hkeys he hx (h.trans hk.symm)
+      · exact absurd hk (h x hx)
+  | none =>
+    have hnone : ∀ x ∈ p, x.key ≠ n := by
+      intro x hx h
+      have := List.find?_eq_none.mp hf x hx
+      simp [h] at this
+    by_cases hl : (p.filter (·.name = n)).isEmpty
+    · simp only [hl, ↓reduceIte, Option.getD_none, List.not_mem_nil, false_iff]
+      rintro ⟨he, h | ⟨_, h⟩⟩
+      · exact hnone e he h
+      · have : e ∈ p.filter (·.name = n) := List.mem_filter.mpr ⟨he, by simpa using h⟩
+        rw [List.isEmpty_iff.mp hl] at this
+        cases this
+    · simp only [hl, Bool.false_eq_true, ↓reduceIte, Option.getD_some, List.mem_filter, decide_eq_true_eq]
+      constructor
+      · rintro ⟨he, h⟩; exact ⟨he, Or.inr ⟨hnone, h⟩⟩
+      · rintro ⟨he, h | ⟨_, h⟩⟩
+        · exact absurd h (hnone e he)
+        · exact ⟨he, h⟩
+
+theorem succNames_perm {p p' : Project} (hp : p.Perm p') (hkeys : (p.map (·.key)).Nodup) (x n : String) :
+    n ∈ succNames p x ↔ n ∈ succNames p' x := by
+  have hkeys' : (p'.map (·.key)).Nodup := (hp.map _).nodup_iff.mp hkeys
+  simp only [succNames, List.mem_flatMap]
+  constructor
+  · rintro ⟨e, he, hn⟩
+    refine ⟨e, (mem_procsOf hkeys' x e).mpr ?_, hn⟩
+    obtain ⟨h1, h2⟩ := (mem_procsOf hkeys x e).mp he
+    refine ⟨hp.mem_iff.mp h1, ?_⟩
+    rcases h2 with h | ⟨h, h'⟩
+    · exact Or.inl h
+    · exact Or.inr ⟨fun y hy => h y (hp.mem_iff.mpr hy), h'⟩
+  · rintro ⟨e, he, hn⟩
+    refine ⟨e, (mem_procsOf hkeys x e).mpr ?_, hn⟩
+    obtain ⟨h1, h2⟩ := (mem_procsOf hkeys' x e).mp he
+    refine ⟨hp.mem_iff.mpr h1, ?_⟩
+    rcases h2 with h | ⟨h, h'⟩
+    · exact Or.inl h
+    · exact Or.inr ⟨fun y hy => h y (hp.mem_iff.mp hy), h'⟩
+
+theorem resolves_perm {p p' : Project} (hp : p.Perm p') (hkeys : (p.map (·.key)).Nodup) (h : Resolves p) : Resolves p' := by
+  have hkeys' : (p'.map (·.key)).Nodup := (hp.map _).nodup_iff.mp hkeys
+  intro e he d hd
+  have h1 := h e (hp.mem_iff.mpr he) d hd
+  -- some entry answers to `d` in `p`, hence in `p'`
+  cases hq : procsOf p d with
+  | none => simp [hq] at h1
+  | some l =>
+    have hne : l ≠ [] := by
+      unfold procsOf at hq
+      split at hq
+      · simp at hq; subst hq; simp
+      · by_cases hl : (p.filter (·.name = d)).isEmpty
+        · simp [hl] at hq
+        · simp only [hl, Bool.false_eq_true, ↓reduceIte, Option.some.injEq] at hq
+          subst hq
+          intro h0; simp [h0] at hl
+    obtain ⟨x, hx⟩ := List.exists_mem_of_ne_nil l hne
+    have hxm : x ∈ (procsOf p d).getD [] := by simp [hq, hx]
+    obtain ⟨hx1, hx2⟩ := (mem_procsOf hkeys d x).mp hxm
+    have hx' : x ∈ (procsOf p' d).getD [] := (mem_procsOf hkeys' d x).mpr
+      ⟨hp.mem_iff.mp hx1, by
+        rcases hx2 with h | ⟨h, h'⟩
+        · exact Or.inl h
+        · exact Or.inr ⟨fun y hy => h y (hp.mem_iff.mpr hy), h'⟩⟩
+    cases hq' : procsOf p' d with
+    | none => simp [hq'] at hx'
+    | some _ => rfl
+
+/-- **The verdict of the cycle check is the same for every order of the process map** -/
+theorem hasCycle_perm (p p' : Project) (hp : p.Perm p') (hkeys : (p.map (·.key)).Nodup) (hres : Resolves p) :
+    hasCycle p = hasCycle p' :=
+  cycle_order_indep p p' hres (resolves_perm hp hkeys hres)
+    (fun k => (hp.map (·.key)).mem_iff)
+    (fun x n => succNames_perm hp hkeys x n)
+
 /-! ### Dependency order -/
 
 /-- `d` occurs before `e` -/
